@@ -66,7 +66,7 @@ def stmt(src):
 PINNED = {'BitField.__call__': {'28716e1482af7826': 'as-modelled'},
  'BitField.__getattr__': {'455227d18fc11908': 'as-modelled'},
  'BitField.__init__': {'8dc92991d5a1e0a4': 'as-modelled'},
- 'BitField._assign_field': {'6c24f939376b5fe6': 'scan-orig', 'b0b8d9d64df4cd2e': 'scan-fixed'},
+ 'BitField._assign_field': {'8b692adbeda84b4e': 'scan-fixed', '713c8bcd6bcf7879': 'scan-orig'},
  'BitField._assign_fields': {'776b5d887fbef0d4': 'as-modelled'},
  'BitField._select_by_field_or_tag': {'46d61d90d1c8ccbc': 'as-modelled'},
  'BitField.add_field': {'2058d0e3db6b7f8a': 'range-orig', 'd4e24a8e32f07139': 'range-fixed'},
@@ -209,7 +209,17 @@ def consts(bf):
         rng = "true"
     else:
         raise Unsupported("add_field: range test %s is neither of the two modelled ones" % t)
-    return scan, rng
+    lens = [n for n in ast.walk(m["_assign_field"]) if isinstance(n, ast.Assign) and len(n.targets) == 1
+            and isinstance(n.targets[0], ast.Name) and n.targets[0].id == "length" and isinstance(n.value, (ast.Call, ast.BinOp))]
+    need(len(lens) == 1, "_assign_field: the statement computing the automatic length not found")
+    ln = dump(lens[0].value)
+    if ln == expr("int(field.max_value).bit_length()"):
+        exact = "true"                       # Python's int.bit_length: the model's [bitlen]
+    elif ln == expr("int(log(field.max_value, 2)) + 1"):
+        exact = "false"                      # floating point: one bit too many from 2^48 - 1 upwards (before b55359e)
+    else:
+        raise Unsupported("_assign_field: automatic length %s is neither int.bit_length nor the float formula" % ln)
+    return scan, rng, exact
 
 
 def main():
@@ -231,10 +241,12 @@ def main():
         pprint.pprint(out, width=110)
         return
     if "shape" not in sys.argv:
-        scan, rng = consts(bf)
+        scan, rng, exact = consts(bf)
         out = [D.HEADER % "dump_c08.py",
                "(* which of the two known shapes of the first-fit scan / the range test the source has now *)\n",
-               D.definition("gen_scan_orig", "bool", scan), D.definition("gen_range_orig", "bool", rng)]
+               D.definition("gen_scan_orig", "bool", scan), D.definition("gen_range_orig", "bool", rng),
+               "(* the automatic length is int(max_value).bit_length() (true) / the float formula int(log(v,2))+1 (false) *)\n",
+               D.definition("gen_auto_length_exact", "bool", exact)]
         sys.stdout.write("".join(out))
         return
     variants = {}
@@ -256,7 +268,8 @@ def main():
     public_internal = [n for n, k in inventory if "internal" in k]
     need(not public_internal, "public methods returning internal objects by reference: %s" % public_internal)
     out = [D.HEADER % "dump_c08.py", "Require Import Coq.Strings.String.\n"]
-    scan, rng = consts(bf)
+    scan, rng, exact = consts(bf)
+    need(exact == "true", "_assign_field: automatic length is the floating-point formula, which the model does not follow")
     need((scan == "true") == (variants["BitField._assign_field"] == "scan-orig")
          and (rng == "true") == (variants["BitField.add_field"] == "range-orig"), "digest table and constants disagree")
     out.append("(* modelled methods, all with a recognised shape *)\n")
